@@ -1104,6 +1104,28 @@ func (l *ledger) checkTransfer() {
 			l.violate("transfer", "timeoutnow-to-lagging-node", fmt.Sprintf("leader %d (last log index %d) sent timeout-now to node %d whose match index is %d", src.id, r.lastLogIndex, target, m))
 		}
 	}
+	// "either completes ... or fails with an error": every transfer request is answered, once; in particular none
+	// is still open once the node it was submitted to no longer leads (release answers it)
+	simTaskMu.Lock()
+	for _, st := range w.tasks {
+		if st.kind != "transfer" || st.ghost {
+			continue
+		}
+		if st.replies > 1 {
+			distinct := map[string]bool{}
+			for _, r := range st.results {
+				distinct[r] = true
+			}
+			if len(distinct) > 1 {
+				l.violate("transfer", "request-answered-twice", fmt.Sprintf("transfer request %d (%s) on node %d got %d answers: %v", st.id, st.payload, st.node+1, st.replies, st.results))
+			}
+		}
+		n := w.nodes[st.node]
+		if st.replies == 0 && st.ret < 0 && n.up && n.inc == st.inc && n.r.state != Leader {
+			l.violate("transfer", "request-unanswered-after-stepdown", fmt.Sprintf("transfer request %d (%s) submitted to node %d is still unanswered although that node is %v now", st.id, st.payload, st.node+1, n.r.state))
+		}
+	}
+	simTaskMu.Unlock()
 	// a transfer that reports success: the old leader has stepped down in favour of a higher term
 	for _, st := range w.tasks {
 		if st.kind != "transfer" || st.ret != w.clock || st.checked {
